@@ -280,19 +280,22 @@ class CaseTimeout(Exception):
 
 @contextlib.contextmanager
 def time_limit(seconds):
+    """per-case guard in CPU seconds of this process (ITIMER_PROF), not wall-clock seconds: an optimiser that no longer stops burns
+    CPU and is caught after the same amount of work on an idle and on a fully loaded machine, while a case that merely waits for a
+    core is not.  (A hang that uses no CPU is left to the unit's own time limit.)"""
     def handler(signum, frame):
         raise CaseTimeout("no result after %d s (the optimiser did not stop)" % seconds)
     try:
-        old = signal.signal(signal.SIGALRM, handler)
+        old = signal.signal(signal.SIGPROF, handler)
     except ValueError:          # not in the main thread: run without a limit
         yield
         return
-    signal.alarm(int(seconds))
+    signal.setitimer(signal.ITIMER_PROF, float(seconds))
     try:
         yield
     finally:
-        signal.alarm(0)
-        signal.signal(signal.SIGALRM, old)
+        signal.setitimer(signal.ITIMER_PROF, 0)
+        signal.signal(signal.SIGPROF, old)
 
 
 _SCALARS = (int, float, bool, str, type(None), numpy.integer, numpy.floating, numpy.bool_)
